@@ -284,6 +284,11 @@ func (s *session) do(st gstep) stepResult {
 		r.Err = s.f.FlushAll(ctx)
 	case "close":
 		r.Err = s.f.Close(ctx)
+	case "broker-on":
+		// the exported Broker field is set or cleared between events
+		s.f.Broker = &recSender{e}
+	case "broker-off":
+		s.f.Broker = nil
 	}
 	e.mu.Lock()
 	r.ComposeIdx = [2]int{c0, len(e.compose)}
@@ -373,6 +378,10 @@ func (m *gmodel) step(st gstep, tok string, now int64) mexpect {
 		}
 	case "emptyid", "nilev":
 		x.Err = true
+	case "broker-on":
+		m.cfg.Sender = true
+	case "broker-off":
+		m.cfg.Sender = false
 	case "flushall", "close":
 		if !m.cfg.Sender {
 			m.groups = nil
